@@ -12,7 +12,12 @@ Nothing in here decides a property; these are small adapters on top of sa.engine
   condition into a helper or lambda does not change the decision structure.
 * origins(fn, e): backward slice of a value through locals (all values a local is ever given, through `*x`, std::move,
   util::Result / std::optional wrappers): the list of non-local leaf expressions it may come from.
-* decl_of / block extents for names that are declared more than once.
+  `line` selects the visible declaration (visible_decl) of a name that is declared more than once.
+* counterexample / implies / equivalent: the engine's truth-table test enumerated atom by atom with early cut-off (same verdicts as
+  F.counterexample, which enumerates all 2^n rows and is limited to 22 atoms; the AvailableCoins path conditions have ~30).
+* switch_groups / site_formula_sw: exact entry condition of each group of a switch with fall-through (labels, or the previous
+  group completing normally); the engine's `case` guard keeps only the labels.
+* bound_by(table): keep-predicate for inline_preds so that helper calls which are the rule's own atoms stay opaque.
 """
 import copy
 
@@ -40,6 +45,12 @@ def _pairish(ty):
 def safe_naming(fn, P, allow_overwritten=False):
     sub = dict(naming(fn, P, allow_overwritten=allow_overwritten))
     cnt = decl_counts(fn)
+    # east-const references / pointers (`T const &`) are as single-definition as `const T&`
+    east = tuple(st["n"] for st in stmts(fn.body) if st.get("k") == "decl" and st.get("n") and isinstance(st.get("ty"), str) and
+                 (st["ty"].endswith("const &") or st["ty"].endswith("const *") or st["ty"].endswith("const&")))
+    if east:
+        for k, v in local_defs(fn, P, extra_ok=east, allow_overwritten=allow_overwritten).items():
+            sub.setdefault(k, v)
     # a name declared several times is kept only if every declaration is a range-for variable over the same range
     loopvar = {}
     for st in stmts(fn.body):
@@ -112,7 +123,19 @@ def _callee_formula(h, P, args, outer_sub=None):
     return F.mk_or(parts) if parts else None
 
 
-def inline_preds(f, fn, P, sub, depth=2):
+def bound_by(table):
+    """keep-predicate for inline_preds: atoms that the rule's atom table binds are the rule's vocabulary and stay opaque."""
+    def keep(k):
+        for m in table.values():
+            for one in (m if isinstance(m, list) else [m]):
+                mm = one[0] if isinstance(one, tuple) else one
+                if F._match_one(mm, k):
+                    return True
+        return False
+    return keep
+
+
+def inline_preds(f, fn, P, sub, depth=2, keep=None):
     for _ in range(depth):
         have = set(F.atoms(f))
         changed = False
@@ -131,7 +154,7 @@ def inline_preds(f, fn, P, sub, depth=2):
                 if h is None:
                     continue
                 k = F.key(F.expand(x, sub))
-                if k not in have:
+                if k not in have or (keep is not None and keep(k)):
                     continue
                 args = [F.expand(a, sub) for a in (call_args(x) if x[0] == "call" else x[4:])]
                 hf = _callee_formula(h, P, args, outer)
@@ -145,8 +168,8 @@ def inline_preds(f, fn, P, sub, depth=2):
     return f
 
 
-def site_formula(site, fn, P, sub):
-    return inline_preds(site.formula(sub), fn, P, sub)
+def site_formula(site, fn, P, sub, keep=None):
+    return inline_preds(site.formula(sub), fn, P, sub, keep=keep)
 
 
 # ------------------------------------------------------------------------------------------------ provenance
@@ -332,3 +355,59 @@ def implies(a, b):
 
 def equivalent(a, b):
     return implies(a, b) and implies(b, a)
+
+
+# ------------------------------------------------------------------------------------------------ switch with fall-through
+def switch_groups(sw, sub):
+    """[(statements of the group, entry condition)] for a switch statement: a group is entered through one of its labels
+    or by falling through from the previous group when that one completed normally (a `break` does not complete).
+    (The engine's `case` guard lists the labels of the groups that may fall into a group but drops the condition under
+    which the earlier group falls through.)"""
+    from sa.engine.paths import post_formula
+    c = sw.get("c")
+    groups, labels, items = [], [], []
+    for it in sw.get("s", []):
+        if not isinstance(it, dict):
+            continue
+        if it.get("k") in ("case", "default"):
+            if items:
+                groups.append((labels, items))
+                labels, items = [], []
+            labels.append("default" if it.get("k") == "default" else it.get("v"))
+        else:
+            items.append(it)
+    if labels or items:
+        groups.append((labels, items))
+    allvals = [v for ls, _ in groups for v in ls if v != "default"]
+    out = []
+    fall = F.Fa
+    for ls, its in groups:
+        lab = []
+        for v in ls:
+            if v == "default":
+                lab.append(F.mk_and([F.mk_not(F.to_formula(["b", "==", c, x], sub)) for x in allvals]))
+            else:
+                lab.append(F.to_formula(["b", "==", c, v], sub))
+        entry = F.mk_or(lab + [fall])
+        out.append((its, entry))
+        fall = F.mk_and([entry, post_formula({"k": "seq", "l": sw.get("l"), "s": its}, sub)])
+    return out
+
+
+def site_formula_sw(site, fn, P, sub, keep=None):
+    """site.formula(sub) with every enclosing switch's `case` guard replaced by the exact entry condition of the site's group."""
+    parts = []
+    for g in site.guards:
+        if g.kind == "case":
+            sws = [st for st in stmts(fn.body) if st.get("k") == "switch" and st.get("l") == g.line and st.get("c") == g.expr]
+            entry = None
+            for sw in sws:
+                for its, ent in switch_groups(sw, sub):
+                    if any(x is site.stmt for it in its for x in stmts(it)):
+                        entry = ent
+            if entry is None:
+                raise AnalysisBroken("%s: cannot locate the switch group of the site at line %s" % (fn.q, site.line))
+            parts.append(entry)
+        else:
+            parts.append(g.formula(sub))
+    return inline_preds(F.mk_and(parts), fn, P, sub, keep=keep)
